@@ -705,6 +705,13 @@ impl Tokens {
                             re.push_str(&char_to_escaped_literal(r.1));
                         }
                     }
+                    // When the separator is literal, a negated class must
+                    // not match it implicitly, just like `?` and `*` don't.
+                    // (A class that names the separator explicitly still
+                    // matches it.)
+                    if negated && options.literal_separator {
+                        re.push('/');
+                    }
                     re.push(']');
                 }
                 Token::Alternates(ref patterns) => {
